@@ -46,7 +46,7 @@ func ptr(v int64) *int64 { return &v }
 
 var poisonBad = []string{"noncrit", "int", "empty", "octet", "trail", "noncrit-int"}
 
-var perturbOps = []string{"drop", "drop", "cut", "swap", "swap", "dup", "insert", "insert", "approot", "approot", "flip", "flip", "resign", "trunc", "sibling", "sibling", "sibling", "twin", "twin", "leafroot"}
+var perturbOps = []string{"drop", "drop", "cut", "swap", "swap", "dup", "insert", "insert", "approot", "approot", "flip", "flip", "resign", "trunc", "sibling", "sibling", "sibling", "twin", "twin", "oldself", "oldself", "oldself", "leafroot"}
 
 func genCase(t *rapid.T, http bool) Case {
 	var c Case
@@ -108,6 +108,10 @@ func genCase(t *rapid.T, http bool) Case {
 			s.EKU = pickFrom(t, "cekuv", []string{"ClientAuth", "CodeSigning", "ServerAuth", "OCSPSigning"})
 		}
 		s.CritUnknown = pct(t, "ccrit", 10)
+		if s.Role != "nonca" && pct(t, "coldself", 35) {
+			s.OldSelf = true
+			s.OldSelfTrusted = s.Role != "pre" && pct(t, "coldselftrusted", 10)
+		}
 		if pct(t, "ctwin", 15) {
 			s.Twin = 1 + uni(t, "ctwinof", 0, 11)
 		}
